@@ -130,13 +130,61 @@ func (r Rec) createLeaves(m Mode) []interface{} {
 			out = append(out, zeroLeaf(col.kind))
 		}
 	}
-	if r.Table == "items" {
-		out = append(out, m.Now, m.Now, nil) // created_at, updated_at, deleted_at
-	}
+	out = append(out, createdLeaves(r.Table, m)...)
 	if r.ID != 0 {
 		out = append(out, r.ID)
 	}
 	return out
+}
+
+// createdLeaves: the tracked-time columns of an inserted struct (generated
+// records leave them zero, so gorm stamps them with NowFunc in the column's unit).
+func createdLeaves(table string, m Mode) []interface{} {
+	switch table {
+	case "items":
+		return []interface{}{m.Now, m.Now, nil} // created_at, updated_at (time.Time), deleted_at
+	case "owners":
+		return []interface{}{m.Now.Unix(), m.Now.Unix()} // CreatedAt, UpdatedAt int64: unix seconds
+	case "tags":
+		return []interface{}{m.Now.UnixMilli(), m.Now.UnixNano()} // autoCreateTime:milli, autoUpdateTime:nano
+	}
+	return nil
+}
+
+// touchedLeaves: the auto-update-time column refreshed by an update with hooks.
+func touchedLeaves(table string, m Mode) []interface{} {
+	switch table {
+	case "items":
+		return []interface{}{m.Now}
+	case "owners":
+		return []interface{}{m.Now.Unix()}
+	case "tags":
+		return []interface{}{m.Now.UnixNano()}
+	}
+	return nil
+}
+
+// saveUpdateLeaves: Save of a struct with a primary key updates every column
+// (zero values included; the create time keeps its zero, the update time is
+// refreshed) where the key matches.
+func (r Rec) saveUpdateLeaves(m Mode) []interface{} {
+	var out []interface{}
+	for i, col := range columnsOf(r.Table) {
+		if i < len(r.F) && r.F[i] != nil {
+			out = append(out, r.F[i].Leaves()...)
+		} else {
+			out = append(out, zeroLeaf(col.kind))
+		}
+	}
+	switch r.Table {
+	case "items":
+		out = append(out, time.Time{}, m.Now, nil)
+	case "owners":
+		out = append(out, int64(0), m.Now.Unix())
+	case "tags":
+		out = append(out, int64(0), m.Now.UnixNano())
+	}
+	return append(out, r.ID)
 }
 
 func unitLeaves(u Unit, m Mode) []interface{} {
@@ -295,16 +343,15 @@ func (c *Chain) Expected(m Mode) []interface{} {
 		return c.queryLeaves(m)
 	case "update":
 		var out []interface{}
-		hooks := c.UpKind == "update" || c.UpKind == "updates-map" || c.UpKind == "updates-struct"
-		tracked := model && table == "items" && hooks
+		hooks := (c.UpKind == "update" || c.UpKind == "updates-map" || c.UpKind == "updates-struct") && !c.SkipHooks
+		tracked := model && hooks
 		if c.SetRec != nil {
 			out = append(out, c.SetRec.condLeaves()...)
 		} else {
 			out = append(out, setLeaves(c.SetKeys, c.SetVals, m)...)
-			tracked = tracked && !has(c.SetKeys, "updated_at")
 		}
 		if tracked {
-			out = append(out, m.Now)
+			out = append(out, touchedLeaves(table, m)...)
 		}
 		exprs := c.topExprs(m)
 		if c.ModelID != 0 {
@@ -322,59 +369,130 @@ func (c *Chain) Expected(m Mode) []interface{} {
 		}
 		return append(out, whereLeaves(exprs, c.softDelete())...)
 	case "create":
+		if c.Batched() {
+			return nil // several statements: see Plan
+		}
+		return c.createLeaves(c.Rows, m)
+	case "save":
+		if c.CrKind == "struct" {
+			if c.Rows[0].ID != 0 {
+				return c.Rows[0].saveUpdateLeaves(m)
+			}
+			return c.Rows[0].createLeaves(m)
+		}
 		var out []interface{}
-		switch c.CrKind {
-		case "struct", "slice":
-			for _, r := range c.Rows {
-				out = append(out, r.createLeaves(m)...)
-			}
-		case "map":
-			out = append(out, setLeaves(c.MapRows[0].Keys, c.MapRows[0].Vals, m)...)
-		case "maps":
-			colset := map[string]bool{}
-			for _, r := range c.MapRows {
-				for _, k := range r.Keys {
-					colset[k] = true
-				}
-			}
-			cols := make([]string, 0, len(colset))
-			for k := range colset {
-				cols = append(cols, k)
-			}
-			sort.Strings(cols)
-			for _, r := range c.MapRows {
-				for _, col := range cols {
-					found := false
-					for i, k := range r.Keys {
-						if k == col {
-							out = append(out, argLeaves(r.Vals[i], false, m)...)
-							found = true
-						}
-					}
-					if !found {
-						out = append(out, nil)
-					}
-				}
-			}
+		for _, r := range c.Rows {
+			out = append(out, r.createLeaves(m)...)
 		}
-		if k := c.Conflict; k != nil {
-			switch k.Kind {
-			case "assignments":
-				out = append(out, setLeaves(k.Keys, k.Vals, m)...)
-			case "updateall":
-				if table == "items" {
-					out = append(out, m.Now) // updated_at is refreshed on conflict
-				}
-			}
-			if k.Where != nil {
-				out = append(out, clLeaves(*k.Where, m)...)
-			}
+		return append(out, touchedLeaves(c.Rows[0].Table, m)...) // ON CONFLICT DO UPDATE SET <update time>=?, col=excluded.col…
+	case "firstor":
+		if c.Fin == "firstorcreate" {
+			return c.Rows[0].createLeaves(m) // nothing matches: the condition's fields become the new record
 		}
-		return out
+		return c.firstOrSelectLeaves(m)
 	case "raw", "exec":
 		return tmplLeaves(c.Raw, m)
 	}
 	return nil
+}
+
+// firstOrSelectLeaves: the SELECT … ORDER BY key LIMIT 1 of FirstOrInit/FirstOrCreate.
+func (c *Chain) firstOrSelectLeaves(m Mode) []interface{} {
+	out := c.Rows[0].condLeaves()
+	if !m.LiteralLimit {
+		out = append(out, int64(1))
+	}
+	return out
+}
+
+// createLeaves of one INSERT statement for rows (struct/slice) or maps.
+func (c *Chain) createLeaves(rows []Rec, m Mode) []interface{} {
+	table, _ := tableOf(c.Base)
+	var out []interface{}
+	switch c.CrKind {
+	case "struct", "slice":
+		for _, r := range rows {
+			out = append(out, r.createLeaves(m)...)
+		}
+	case "map":
+		out = append(out, setLeaves(c.MapRows[0].Keys, c.MapRows[0].Vals, m)...)
+	case "maps":
+		colset := map[string]bool{}
+		for _, r := range c.MapRows {
+			for _, k := range r.Keys {
+				colset[k] = true
+			}
+		}
+		cols := make([]string, 0, len(colset))
+		for k := range colset {
+			cols = append(cols, k)
+		}
+		sort.Strings(cols)
+		for _, r := range c.MapRows {
+			for _, col := range cols {
+				found := false
+				for i, k := range r.Keys {
+					if k == col {
+						out = append(out, argLeaves(r.Vals[i], false, m)...)
+						found = true
+					}
+				}
+				if !found {
+					out = append(out, nil)
+				}
+			}
+		}
+	}
+	if k := c.Conflict; k != nil {
+		switch k.Kind {
+		case "assignments":
+			out = append(out, setLeaves(k.Keys, k.Vals, m)...)
+		case "updateall":
+			out = append(out, touchedLeaves(table, m)...) // the update time is refreshed on conflict
+		}
+		if k.Where != nil {
+			out = append(out, clLeaves(*k.Where, m)...)
+		}
+	}
+	return out
+}
+
+// Plan lists the statements of a chain: what a dry run builds (Dry; the handle
+// it returns exposes the last one unless Hidden) and what a real run sends
+// (Real, in order). DryAt[i] is the index in Real of the statement Dry[i] shows.
+type Plan struct {
+	Dry    [][]interface{}
+	Real   [][]interface{}
+	DryAt  []int
+	Hidden bool // batched create: the returned handle exposes nothing (each batch runs on its own statement)
+	// ExtraReal: the real run may send one more statement after Real (Save of a
+	// struct whose key matches no row falls back to an upsert).
+	ExtraReal bool
+}
+
+// Plan predicts the statements and their bound values.
+func (c *Chain) Plan(m Mode) Plan {
+	switch {
+	case c.Batched():
+		var p Plan
+		p.Hidden = true
+		for i := 0; i < len(c.Rows); i += c.BatchSize {
+			end := i + c.BatchSize
+			if end > len(c.Rows) {
+				end = len(c.Rows)
+			}
+			p.Dry = append(p.Dry, c.createLeaves(c.Rows[i:end], m))
+			p.DryAt = append(p.DryAt, len(p.Dry)-1)
+		}
+		p.Real = p.Dry
+		return p
+	case c.Kind == "firstor" && c.Fin == "firstorcreate":
+		ins := c.Expected(m)
+		return Plan{Dry: [][]interface{}{ins}, Real: [][]interface{}{c.firstOrSelectLeaves(m), ins}, DryAt: []int{1}}
+	}
+	e := c.Expected(m)
+	return Plan{Dry: [][]interface{}{e}, Real: [][]interface{}{e}, DryAt: []int{0},
+		ExtraReal: c.Kind == "save" && c.CrKind == "struct" && c.Rows[0].ID != 0}
 }
 
 // ---- walking the description ------------------------------------------------------------------
@@ -644,11 +762,29 @@ func (c *Chain) Describe(literalLimit bool) Info {
 		}
 	case "create":
 		fin = "fin:create-" + c.CrKind
+		if c.Batched() {
+			w.info.Classes["batch:"+c.Batch] = true
+			if len(c.Rows) > c.BatchSize {
+				w.info.Classes["batch:several"] = true
+			} else {
+				w.info.Classes["batch:single"] = true
+			}
+		}
+	case "save":
+		fin = "fin:save-" + c.CrKind
+		if c.CrKind == "struct" && c.Rows[0].ID != 0 {
+			fin += "-update"
+		}
+	case "firstor":
+		fin = "fin:" + c.Fin
 	default:
 		fin = "fin:" + c.Kind
 	}
 	w.info.Classes[fin] = true
 	w.info.Classes["base:"+c.Base] = true
+	if c.SkipHooks {
+		w.info.Classes["session:skiphooks"] = true
+	}
 	return w.info
 }
 
